@@ -111,6 +111,7 @@ def get_count__start_size__c2c_expansion(length, start_size, c2c_expansion):
 def get_count__end_size__c2c_expansion(length, end_size, c2c_expansion):
     """Calculates count from given end size and cell-to-cell expansion ratio"""
     _validate_length(length)
+    _validate_start_end_size(end_size, "end")
 
     if abs(c2c_expansion - 1) > constants.TOL:
         count = np.log(1 / (1 + length / end_size * (1 - c2c_expansion) / c2c_expansion)) / np.log(c2c_expansion)
